@@ -458,7 +458,8 @@ func modeC12PrefetchEcs(nopoison, ecs bool) {
 	defer in.close()
 	var hot []string
 	for i := 0; i < 24; i++ {
-		hot = append(hot, fmt.Sprintf("%s.r0t8d%d.pf.test.", uniq(), 5+i%10))
+		// (the upstream's replies, the refresh's too, carry an OPT with options: nothing of it reaches a client)
+		hot = append(hot, fmt.Sprintf("%s.r0t8d%dfO.pf.test.", uniq(), 5+i%10))
 	}
 	par(len(hot), func(i int) { in.send("udp", fmt.Sprintf("127.0.%d.1", 21+i), mkq(hot[i]), 3*time.Second, nil) })
 	time.Sleep(6350 * time.Millisecond)
@@ -476,6 +477,13 @@ func modeC12PrefetchEcs(nopoison, ecs bool) {
 	}
 	runtime.GOMAXPROCS(old)
 	time.Sleep(300 * time.Millisecond)
+	// the refreshed entries are served to clients without and with EDNS0
+	par(len(hot), func(i int) {
+		in.send("udp", fmt.Sprintf("127.0.%d.1", 21+i), mkq(hot[i]), 3*time.Second, nil)
+		q := mkq(hot[i])
+		q.opt = true
+		in.send("tcp", fmt.Sprintf("127.0.%d.1", 21+i), q, 3*time.Second, nil)
+	})
 }
 
 func modeC12(thorough bool) {
@@ -537,6 +545,13 @@ func modeC12(thorough bool) {
 				in.send([]string{"udp", "tcp"}[k%3], "127.0.1.1", mkq(uniq()+".r0t60d0.z3.test."), 3*time.Second, nil)
 			}
 			in.send([]string{"http", "fasthttp"}[k%2], "", mkq(uniq()+".r0t60d0.z3.test."), 3*time.Second, nil)
+		}
+		// a response that has to be cut down to the client's size keeps its OPT
+		for _, sz := range []uint16{512, 600, 1232} {
+			q := mkq(uniq() + ".r0t60d0fB.z3.test.")
+			q.typ = dns.TypeTXT
+			q.opt, q.optsize = true, sz
+			in.send("udp", "127.0.1.1", q, 4*time.Second, nil)
 		}
 		// an OPT is an OPT whatever payload size it advertises (0, 1, 511): the response carries the proxy's
 		for i, sz := range []uint16{0, 0, 1, 511, 512, 65535} {
